@@ -30,6 +30,7 @@ AllSits == {s \in Raw : /\ ~(s.input \in {"missing", "directory"} /\ s.channel \
 \* outside faults (C20): every situation here is replayed alone, and some of them among other processes
 FaultSits == {([fault |-> f] @@ S(i, c, "json", "none")) : i \in {"ok", "syntax"}, c \in {"path", "stdin"}, f \in {"sigint", "fsize"}}
              \cup {([fault |-> f] @@ S("ok", c, "json", "none")) : c \in {"path", "stdin"}, f \in {"sigterm", "sighup"}}
+             \cup {([fault |-> "fsizerep"] @@ S("ok", c, f, "none")) : c \in {"path", "stdin"}, f \in {"json", "csv"}}
              \* (JSON only: the final file is 38 bytes longer than the one in the temp directory -- the hash instead of the random
              \* report id -- so a file size limit between the two lets everything succeed but the last write)
              \cup {([fault |-> "fsizeout"] @@ SO("ok", c, "json", "none", w)) : c \in {"path", "stdin"}, w \in {"newfile", "force"}}
